@@ -104,6 +104,10 @@ func verifyFunction(l *Loaded, cs *Contracts, fn *ssa.Function, con *Contract) (
 			c.names[lt.Name] = names[lt.Name]
 		}
 	}
+	for _, gl := range cs.Globals {
+		e.B.assume(e.compileBool(mkctx(entry, nil, "global invariant"), gl.Expr))
+		e.note("package invariant assumed on entry: %s", gl.Src)
+	}
 	for _, rq := range con.Requires {
 		e.B.assume(e.compileBool(mkctx(entry, nil, "requires of "+res.Name), rq.Expr))
 		res.Clauses++
@@ -125,6 +129,13 @@ func verifyFunction(l *Loaded, cs *Contracts, fn *ssa.Function, con *Contract) (
 	// vacuity guard: some path returns normally
 	cov2 := e.addObl(fr, "cover-returns", not(returns), "some path returns", fn.Pos(), nil)
 	cov2.Cover = true
+
+	// ghost assignments executed on return
+	for _, eg := range con.Exit {
+		key, srt, _ := e.ghostKey(eg.Name)
+		v := e.compile(mkctx(out, rets, "exit ghost of "+res.Name), eg.Expr)
+		out.m[key] = e.B.define(key, srt, v.T)
+	}
 
 	for k, en := range con.Ensures {
 		ctx := mkctx(out, rets, "ensures of "+res.Name)
